@@ -132,6 +132,16 @@ def phrase(draw, profile):
         return ws + ' said "hi" \\ back'
     if k == 10:
         return " ".join(draw(st.lists(st.sampled_from(WORDS), min_size=14, max_size=40)))  # long
+    if k == 11:
+        # a multi-octet character split over two adjacent encoded words (seen in the wild)
+        raw = (draw(st.sampled_from(WORDSU)) + " " + ws + " " + draw(st.sampled_from(WORDSU))).encode("utf-8")
+        cut = [i for i in range(1, len(raw)) if raw[i] & 0xC0 == 0x80]
+        c = cut[draw(st.integers(0, len(cut) - 1))] if cut else len(raw) // 2
+
+        def q(bs):
+            return "".join("=%02X" % x for x in bs)
+
+        return f"=?utf-8?Q?{q(raw[:c])}?=\r\n\t=?utf-8?Q?{q(raw[c:])}?="
     return ws
 
 
@@ -340,12 +350,16 @@ def multipart(draw, depth: int, allow8: bool, tag: str):
         labels |= lb
         if not mf:
             labels.add("part-no-header")
-        chunks.append(b"--" + bnd.encode() + CRLF + render_fields(mf) + CRLF + body + (b"" if body.endswith(CRLF) or not body else CRLF))
-        # NB: the CRLF that precedes a delimiter belongs to the delimiter; a body
-        # that ends in CRLF therefore keeps one line break of its own only if
-        # we add another: do that sometimes
+        # NB: the CRLF that precedes a delimiter belongs to the delimiter.  A body
+        # ending in CRLF is used as it is (its last line break then serves as the
+        # delimiter's); sometimes another CRLF is added so that the part really
+        # ends in a line break.  An empty body mostly gets the delimiter's CRLF.
+        tail = b"" if body.endswith(CRLF) else CRLF
+        if not body and draw(st.integers(0, 3)) == 0:
+            tail = b""
         if body.endswith(CRLF) and draw(st.integers(0, 5)) == 0:
-            chunks[-1] += CRLF
+            tail = CRLF
+        chunks.append(b"--" + bnd.encode() + CRLF + render_fields(mf) + CRLF + body + tail)
     close = draw(st.integers(0, 11))
     epi = draw(st.sampled_from([b"", b"", b"", b"epilogue\r\n", b"\r\n"]))
     body = pre + b"".join(chunks)
